@@ -381,6 +381,11 @@ ADDENDA = {
            "exhaustively over the request space; the grid test is exercised with several scales on ONE handle.",
     "C05": " Also: the disk-backed byte array equals the in-memory one after every history of appends, failing ones "
            "included (disk_buffer_equals_memory_buffer); callers' buffers are reused after every store.",
+    "C07": " Also: the selection code get_downscaler(method, info, options) as a decision model (Down.getDownscaler) with the "
+           "theorems that `auto` builds what the named method builds WITH THE SAME OPTIONS, that whichever spelling selects "
+           "averaging the voxel is the averaging model's with the caller's outside value "
+           "(selected_average_uses_the_outside_value), and that exactly the four names are accepted; every differential case "
+           "goes through the selection model before the voxel model.",
     "C08": " Also: the per-axis delays are computed INSIDE the model (integer decision of round(log2 q)) with the theorem "
            "that the delay is exactly the level from which the axis is within sqrt(2) of the finest one "
            "(delay_is_the_level_of_near_isotropy); every raw / compressed_segmentation scale of a generated info is served "
